@@ -187,6 +187,28 @@ CLAIMED.update({
         ref='§4 C19'),
 })
 
+CLAIMED.update({
+    'C08': dict(
+        text='Theorems (abstract directories of well-formed PELs with distinct entry ids): the file list is the abstract sorted list; the summary decoder '
+             '(which stops at the primary SRC) shows exactly the corresponding fields of the PEL, which equal the fields of the full decode; count = number '
+             'of selected PELs; --list = exactly the selected PELs keyed by entry id, --all-pels = exactly their full decodes, both in presentation order; '
+             'ascending file-name order (strict total order on code points), --reverse = the reverse sequence, --extension restricts and loses nothing; '
+             'splitext. Correspondence: generated directories through the real -n / -l / -a / -l -x (in-process and as subprocesses), cross-mode relations '
+             'checked directly on the real output.',
+        note=BASE + 'os.walk / list.sort / os.path.splitext / argparse are modelled; the domain is directories whose PELs the decoder accepts.',
+        technique='Lean 4 proof (insertion sort on a strict total order, filterMap = filter-then-map, summary decoder framing) + differential correspondence',
+        ref='§4 C08'),
+    'C09': dict(
+        text='Theorems (any directory, any junk file a mode cannot decode, inserted anywhere in walk order): stdout and exit status of --list, --all-pels, '
+             '--show-pel-count, --plid, --src/--src-exclude are unchanged and diagnostics only grow; --json creates/removes the same files; stdout of the JSON '
+             'modes is the print-out of ONE document (so C06 applies) and with --hex a sequence of delimited dumps; decoders cannot write to stdout by '
+             'construction. Correspondence: each mode on D and on D + junk (empty, truncations, random bytes, bad ids, the PCE-size witness, subdirectories) '
+             'on the real CLI, byte-for-byte.',
+        note=BASE + 'Junk is classified per mode by what that mode actually reads (summary modes stop at the primary SRC; count reads two headers). Unreadable-by-permission files are not exercised.',
+        technique='Lean 4 proof (sorted-insertion lemma, filterMap non-interference) + differential correspondence',
+        ref='§4 C09'),
+})
+
 PENDING = {
 }
 
